@@ -54,6 +54,7 @@ SIG_PARAMS_SERIAL = "llm-params-wrong-without-overlap"
 SIG_KEY = "history-cache-hit-for-different-messages"
 SIG_CACHE = "history-cache-shared-instance-differs-from-fresh"
 SIG_CTX = "request-context-leaks-between-requests"
+SIG_G = "generation-depends-on-instance-state-beyond-the-events"
 
 PARAM_NAMES = {"temperature": 0, "max_tokens": 1, "top_p": 2, "n": 3, "seed": 4}
 
@@ -79,11 +80,17 @@ def impl():
     import nemoguardrails.embeddings.basic as EB
 
     class _FakeEmb:
-        async def encode_async(self, texts):
-            return [[1.0, 0.0, 0.5, 0.25] for _ in texts]
-
         def encode(self, texts):
-            return [[1.0, 0.0, 0.5, 0.25] for _ in texts]
+            out = []
+            for t in texts:
+                v = [0.0] * 8
+                for i, ch in enumerate(t.encode()):
+                    v[(ch + i) % 8] += 1.0
+                out.append(v)
+            return out
+
+        async def encode_async(self, texts):
+            return self.encode(texts)
 
     EB.init_embedding_model = lambda embedding_model, embedding_engine: _FakeEmb()
     from nemoguardrails import LLMRails, RailsConfig
@@ -108,11 +115,28 @@ def impl():
         d["kwargs"] = dict(llm.model_kwargs) if hasattr(llm, "model_kwargs") else None
         return d
 
+    import re as _re
+
     def answer(prompt):
+        """The fake LLM: a function of the prompt only."""
+        hx = hashlib.sha1(prompt.encode()).hexdigest()
         if prompt.startswith("Check:"):
             text = prompt[len("Check: "):].rsplit("\nAnswer:", 1)[0]
             return "Yes" if (":R" in text or "bad" in text) else "No"
-        return "R" + hashlib.sha1(prompt.encode()).hexdigest()[:3]
+        last = prompt.rstrip().split("\n")[-1]
+        if "\nuser " in prompt and "Assistant:" not in last:
+            # dialog-rails tasks (prompts end with the Colang history)
+            m = _re.match(r'user "(.*)"$', last)
+            if m:                                   # generate_user_intent
+                t = m.group(1)
+                if t.startswith(("hello", "hi")):
+                    return "  express greeting"
+                return "  ask about topic" if "about" in t else "  ask something"
+            if last.startswith("user "):            # generate_next_steps: the generated flow depends on the history
+                return ["bot inform alpha", "bot inform beta", "bot inform gamma"][int(hx[:6], 16) % 3]
+            if last.startswith("bot "):             # generate_bot_message
+                return '  "M' + hx[:3] + '"'
+        return "R" + hx[:3]
 
     class FnLLM(FakeLLM):
         """FakeLLM whose completion is a function of the prompt; logs what it is called with."""
@@ -186,14 +210,38 @@ prompts:
       Check: {{ user_input }}
       Answer:
 """
-CONFIGS = {"general": YAML_GENERAL, "selfcheck": YAML_SELFCHECK % "False", "exc": YAML_SELFCHECK % "True"}
+COLANG_DIALOG = """
+define user express greeting
+  "hello"
+  "hi"
+
+define bot express greeting
+  "Hi there"
+
+define flow greeting
+  user express greeting
+  bot express greeting
+
+define bot inform alpha
+  "ALPHA"
+
+define bot inform beta
+  "BETA"
+"""
+# "dialog": dialog rails with multi-step generation - the LLM generates flows that the runtime
+# registers on the instance (runtime.flow_configs), i.e. instance state beyond the history cache
+CONFIGS = {"general": YAML_GENERAL, "selfcheck": YAML_SELFCHECK % "False", "exc": YAML_SELFCHECK % "True",
+           "dialog": ("models: []\nenable_multi_step_generation: True\n", COLANG_DIALOG)}
+WORDS_DIALOG = ["hello", "hi", "tell me about cats", "tell me about dogs", "what about x:y", "a:b", "q", "ok", "about:R"]
 _CFG = {}
 
 
 def mk_app(config, kw=False):
     ns = impl()
     if config not in _CFG:
-        _CFG[config] = ns["RailsConfig"].from_content(colang_content="", yaml_content=CONFIGS[config])
+        y = CONFIGS[config]
+        y, co = y if isinstance(y, tuple) else (y, "")
+        _CFG[config] = ns["RailsConfig"].from_content(colang_content=co, yaml_content=y)
     h = ns["Hooks"]()
     llm = ns["FnLLMKw"](h=h, model_kwargs={"top_p": 1.0}) if kw else ns["FnLLM"](h=h)
     app = ns["LLMRails"](_CFG[config], llm=llm)
@@ -205,7 +253,14 @@ def mk_app(config, kw=False):
 _VOLATILE = {"uid", "event_created_at", "source_uid", "action_uid", "action_result_key"}
 
 
+import re as _re_mod
+
+_UUID = _re_mod.compile(r"[0-9a-f]{8}-[0-9a-f]{4}-[0-9a-f]{4}-[0-9a-f]{4}-[0-9a-f]{12}")
+
+
 def strip(x):
+    if isinstance(x, str):
+        return _UUID.sub("<uuid>", x)
     if isinstance(x, dict):
         return {k: strip(v) for k, v in x.items() if k not in _VOLATILE and not k.endswith("_uid") and not k.endswith("_at")}
     if isinstance(x, (list, tuple)):
@@ -239,6 +294,67 @@ def coq_tok(t):
     if t[0] == "X":
         return f"(TX {_INTERN.setdefault(t[1], len(_INTERN))})"
     return f"(t{t[0]} {C.coq_string(short(t[1]))})"
+
+
+def _cv(v, d):
+    if isinstance(v, (str, int, float, bool, type(None))):
+        return _UUID.sub("<uuid>", repr(v))[:120]
+    if isinstance(v, dict):
+        ks = [_UUID.sub("<uuid>", str(k))[:80] for k in v]
+        det = sorted(k for k in ks if "<uuid>" not in k)
+        return {"keys": det, "fresh_id_keys": len(ks) - len(det)}
+    if isinstance(v, (list, tuple, set, frozenset)):
+        return {"len": len(v), "items": [_cv(x, d - 1) for x in list(v)[:60]] if d > 0 else None}
+    return "<" + type(v).__name__ + ">"
+
+
+def instance_state(app):
+    """Fingerprint of the mutable attributes of the LLMRails object and of the nemoguardrails
+    objects it owns (runtime, action dispatcher, generation actions, task manager, ...), uuids
+    canonicalised; path -> (deterministic part, number of fresh-id keys)."""
+    out, seen = {}, set()
+
+    def walk(obj, path, depth):
+        if id(obj) in seen:
+            return
+        seen.add(id(obj))
+        d = getattr(obj, "__dict__", None)
+        if not isinstance(d, dict):
+            return
+        for k, v in d.items():
+            p = path + "." + k
+            if (type(v).__module__ or "").startswith("nemoguardrails") and depth > 0:
+                walk(v, p, depth - 1)
+            else:
+                c = _cv(v, 1)
+                fresh = c.pop("fresh_id_keys", 0) if isinstance(c, dict) else 0
+                out[p] = (json.dumps(c, sort_keys=True, default=str), fresh)
+
+    walk(app, "app", 3)
+    return out
+
+
+# instance attributes that are allowed to change while serving, and why
+STATE_ALLOWED = {
+    "app.events_history_cache": "the history cache: modelled (Svc.HistCache), hits verified against the message list",
+    "app.explain_info": "debug information about the latest request (explain()); not read by generation",
+}
+
+
+def state_changes(s0, s1):
+    """(deterministic changes outside the allow-list, all changed paths, paths that only gained fresh-id keys)"""
+    bad, changed, fresh = [], [], []
+    for p in sorted(set(s0) | set(s1)):
+        a, b = s0.get(p), s1.get(p)
+        if a == b:
+            continue
+        changed.append(p)
+        if a is not None and b is not None and a[0] == b[0]:
+            fresh.append(p)
+            continue
+        if not any(p == q or p.startswith(q + ".") for q in STATE_ALLOWED):
+            bad.append((p, (a or ("<absent>", 0))[0][:200], (b or ("<absent>", 0))[0][:200]))
+    return bad, changed, fresh
 
 
 ROLE_COQ = {"user": "RUser", "assistant": "RAssistant", "context": "RContext", "event": "REvent",
@@ -330,6 +446,7 @@ def run_schedule(config, convs, sched, probes=(), opts=None, mode="tasks"):
         return r
 
     app.runtime.generate_events = gen_events
+    st0 = instance_state(app)
     hist = [[] for _ in convs]
     done = [0] * len(convs)
     recs = []
@@ -378,11 +495,15 @@ def run_schedule(config, convs, sched, probes=(), opts=None, mode="tasks"):
 
         ns["asyncio"].run(worker())
     precs = []
+    st1 = instance_state(app)
     app._get_events_for_messages = orig_get
+    app.runtime.generate_events = orig_gen
     for pr in probes:
         ev = app._get_events_for_messages(json.loads(json.dumps(pr)), None)
         precs.append({"req": pr, "events": [token(e) for e in ev]})
-    return recs, precs, ns["snapshot"](llm)
+    final = ns["snapshot"](llm)
+    final["_state"] = state_changes(st0, st1)
+    return recs, precs, final
 
 
 def interleavings(lens, cap, rng):
@@ -424,8 +545,12 @@ def u(t):
     return {"role": "user", "content": t}
 
 
+_WORDS_NOW = [None]
+
+
 def rand_text(rng):
-    return rng.choice(WORDS) if rng.random() < 0.7 else rng.choice(WORDS) + rng.choice(["", ":", " "]) + rng.choice(WORDS)
+    w = _WORDS_NOW[0] or WORDS
+    return rng.choice(w) if rng.random() < 0.7 else rng.choice(w) + rng.choice(["", ":", " "]) + rng.choice(w)
 
 
 def rand_turn(rng):
@@ -510,6 +635,7 @@ def adversaries(config, base, rng):
 
 def gen_sets(config, rng, n_random, n_adv):
     sets = []
+    _WORDS_NOW[0] = WORDS_DIALOG if config == "dialog" else WORDS
     for _ in range(n_random):
         n = rng.choice([2, 2, 3])
         convs = [rand_conv(rng) for _ in range(n)]
@@ -532,6 +658,7 @@ def gen_sets(config, rng, n_random, n_adv):
             conv = conv + ([[u("then")]] if rng.random() < 0.4 else [])
             opts, mode = rand_serving(rng, 2 + len(extra), first_plain=True)
             sets.append({"config": config, "kind": kind, "convs": [base, conv] + extra, "opts": opts, "mode": mode})
+    _WORDS_NOW[0] = None
     return sets
 
 
@@ -592,8 +719,36 @@ def work_set(args):
     own = [norm_options(o) for o in opts]
     res["ctx_terms"] = []
     res["ctx_meta"] = []
+    res["state_changed"], res["state_fresh_ids"], res["state_bad"] = {}, {}, []
+    gtable = {}
+    for ci, recs0 in enumerate(iso):
+        for r in recs0:
+            if not r["err"]:
+                gtable.setdefault(json.dumps([r["events"], own[ci]]),
+                                  (json.dumps([r["new"], canon_reply(r["reply"])]), "conversation %d turn %d alone on a fresh instance" % (ci, r["k"])))
     for sched in scheds:
         recs, precs, final = run_schedule(config, convs, list(sched), probes, opts=opts, mode=mode)
+        bad_state, changed, fresh_only = final["_state"]
+        for p in changed:
+            res["state_changed"][p] = res["state_changed"].get(p, 0) + 1
+        for p in fresh_only:
+            res["state_fresh_ids"][p] = res["state_fresh_ids"].get(p, 0) + 1
+        for p, a, b in bad_state[:3]:
+            res["state_bad"].append({"path": p, "before": a, "after": b, "config": config, "convs": convs, "opts": opts, "mode": mode, "sched": list(sched)})
+        # generation must be a function of the event list (the abstraction G of Svc.HistCache):
+        # the same events, on whatever instance / after whatever other conversations, give the same new events
+        for r in recs:
+            if r["err"]:
+                continue
+            gk = json.dumps([r["events"], own[r["c"]]])
+            gv = json.dumps([r["new"], canon_reply(r["reply"])])
+            if gk in gtable and gtable[gk][0] != gv:
+                res["findings"].append((SIG_G, "the same event list was answered differently: generation depends on instance state other than the events "
+                                        "(conversation %d turn %d, schedule %s, vs %s)" % (r["c"], r["k"], list(sched), gtable[gk][1]),
+                                        {"kind": "cache", "config": config, "convs": convs, "opts": opts, "mode": mode, "sched": list(sched),
+                                         "conversation": r["c"], "turn": r["k"], "events": r["events"],
+                                         "this_run": json.loads(gv), "other_run": json.loads(gtable[gk][0]), "other": gtable[gk][1]}))
+            gtable.setdefault(gk, (gv, "conversation %d turn %d in schedule %s" % (r["c"], r["k"], list(sched))))
         # the request context as a trace of Svc.Ctx: contexts, own options, options seen at the LLM calls
         codes = {}
 
@@ -668,6 +823,8 @@ def work_set(args):
                                         dict(payload, after=r["after_params"])))
             lp = (opts[r["c"]] or {}).get("llm_params") or {}
             for cp, prm, cx in zip(r["call_params"], r["prompts"], r["call_ctx"]):
+                if config == "dialog":
+                    break           # dialog tasks set their own temperatures: compared with the isolated replay only
                 if prm.startswith("Check:"):
                     want = {"temperature": 0.001, "max_tokens": 3}
                 else:
@@ -675,6 +832,7 @@ def work_set(args):
                 if cp["attrs"] != want:
                     res["findings"].append((SIG_CTX if cx["options"] != own[r["c"]] else SIG_PARAMS_SERIAL,
                                             "sequential LLM call ran with %s, its own parameters are %s" % (cp["attrs"], want), dict(payload, call=cp)))
+            for cx in r["call_ctx"]:
                 if cx["options"] != own[r["c"]]:
                     res["findings"].append((SIG_CTX, "the LLM call of a request made with options %s saw the generation options %s" % (opts[r["c"]], cx["options"]),
                                             dict(payload, options_seen=cx["options"])))
@@ -1031,7 +1189,7 @@ def run(tier, seed, replay=None):
     n_key = 0 if replay else int((3000 if thorough else 600) * sc)
     n_rand = 0 if replay else max(1, int((10 if thorough else 4) * sc))
     n_adv = 0 if replay else max(1, int((8 if thorough else 3) * sc))
-    cap = 200 if thorough else max(8, int(40 * sc))
+    cap = 200 if thorough else max(8, int(30 * sc))
     n_par = 0 if replay else int((6000 if thorough else 1200) * sc)
     n_conc = 0 if replay else int((400 if thorough else 64) * sc)
     if sc != 1:
@@ -1076,7 +1234,7 @@ def run(tier, seed, replay=None):
 
     _t(out, 'key differential done')
     # ---- (2) conversations on shared vs fresh instances
-    for cfg in ("general", "selfcheck", "exc"):
+    for cfg in ("general", "selfcheck", "exc", "dialog"):
         sets += gen_sets(cfg, rng, n_rand, n_adv)
         if thorough and not replay and cfg == "exc":
             # one full 3 conversations x 3 turns set (richest config): all 1680 interleavings
@@ -1100,16 +1258,20 @@ def run(tier, seed, replay=None):
     results = []
     for si, s in enumerate(sets):
         mine = [c for c, o in zip(chunks, owner) if o == si]
-        r = {"terms": [], "meta": [], "findings": [], "ctx_terms": [], "ctx_meta": [], "n_sched": 0, "turns": 0, "probe_n": 0, "skipped_same_history": 0,
+        r = {"terms": [], "meta": [], "findings": [], "ctx_terms": [], "ctx_meta": [], "state_bad": [], "state_changed": {}, "state_fresh_ids": {}, "n_sched": 0, "turns": 0, "probe_n": 0, "skipped_same_history": 0,
              "hits_cross": 0, "honest": all(honest_conv(c) for c in s["convs"]), "kind": s["kind"]}
         for c in mine:
-            for k in ("terms", "meta", "findings", "ctx_terms", "ctx_meta"):
+            for k in ("terms", "meta", "findings", "ctx_terms", "ctx_meta", "state_bad"):
                 r[k] += c[k]
+            for k in ("state_changed", "state_fresh_ids"):
+                for pth, n in c[k].items():
+                    r[k][pth] = r[k].get(pth, 0) + n
             for k in ("n_sched", "turns", "probe_n", "skipped_same_history", "hits_cross"):
                 r[k] += c[k]
         results.append(r)
     terms, metas = [], []
     ctx_terms, ctx_metas = [], []
+    state_changed, state_fresh, state_bad = {}, {}, []
     kinds = {}
     serving = {"one-task-per-request": 0, "one-coroutine": 0, "sets_mixing_options_and_none": 0}
     n_turns = n_probe = n_sched = n_honest = skipped = 0
@@ -1118,6 +1280,11 @@ def run(tier, seed, replay=None):
         metas += r["meta"]
         ctx_terms += r["ctx_terms"]
         ctx_metas += r["ctx_meta"]
+        state_bad += r["state_bad"]
+        for pth, n in r["state_changed"].items():
+            state_changed[pth] = state_changed.get(pth, 0) + n
+        for pth, n in r["state_fresh_ids"].items():
+            state_fresh[pth] = state_fresh.get(pth, 0) + n
         serving["one-coroutine" if s.get("mode") == "coroutine" else "one-task-per-request"] += r["n_sched"]
         so = s.get("opts") or []
         if any(o is None for o in so) and any(o is not None for o in so):
@@ -1130,6 +1297,12 @@ def run(tier, seed, replay=None):
         skipped += r["skipped_same_history"]
         for sig, what, payload in r["findings"][:40]:
             out.findings.append(C.Finding(sig, what, payload))
+    if state_bad:
+        b0 = min(state_bad, key=lambda x: len(json.dumps(x)))
+        out.add_broken("assumption:generation-is-a-function-of-the-events",
+                       "%d runs changed instance attributes outside the modelled / allow-listed state (Svc.HistCache abstracts generation to a function G of "
+                       "the event list, so nothing else on the LLMRails/runtime objects may carry information from one request to the next): "
+                       "paths=%s; smallest: %s" % (len(state_bad), sorted({x["path"] for x in state_bad}), json.dumps(b0)[:1500]))
     distinct = len({C.canon_hash(t) for t in terms})
     if okm and terms:
         bools, err = C.run_cases(PID + "_trace", HIST_PRE, terms, "check_trace", shard=12)
@@ -1229,13 +1402,16 @@ def run(tier, seed, replay=None):
         "samples": [{"set_kind": m["set"]["kind"], "config": m["set"]["config"], "convs": m["set"]["convs"], "sched": m["sched"]} for m in metas[:2]]
                    + ([{"key_case": key_kept[0][0], "key": key_kept[0][1]}] if key_kept else []),
         "input_distribution": {"conversation_sets": len(sets), "set_kinds": kinds, "honest_sets": n_honest,
-                               "interleavings_run": n_sched, "serving": serving, "turns_served": n_turns, "probe_lookups": n_probe,
+                               "interleavings_run": n_sched, "serving": serving,
+                               "instance_attributes_changed_while_serving": state_changed,
+                               "instance_attributes_that_only_gained_fresh_id_keys": state_fresh,
+                               "instance_attributes_allowed_to_change": STATE_ALLOWED, "turns_served": n_turns, "probe_lookups": n_probe,
                                "turns_not_compared_same_history": skipped, "key_cases": len(key_terms),
                                "params_cases": par_stats, "concurrent": conc_stats, "corpus_cases": n_corpus},
         "traces_validated_against_impl": len(terms) + len(ctx_terms) + len(par_terms) + len(conc_terms),
     })
     out.assumptions += [
-        "generation (runtime.generate_events, the LLM, actions) is an arbitrary deterministic function G of the event list; uuids/timestamps abstracted; the fake LLM answers as a function of the prompt",
+        "generation (runtime.generate_events, the LLM, actions) is an arbitrary deterministic function G of the event list (and the request's own options); uuids/timestamps abstracted; the fake LLM answers as a function of the prompt. Checked on every run by two oracles: equal event lists are answered equally across all shared and fresh runs of a set, and no attribute of the LLMRails / runtime / generation-actions objects outside the allow-list changes deterministically while serving (coverage.input_distribution.instance_attributes_*)",
         "json.dumps of context/event payloads is an oracle (message body = the dumped string); message identity = (role, content, event)",
         "isolation theorem: clients are honest (requests = own earlier requests and replies + new messages whose role is not assistant/exception); client-supplied histories are covered by the differential only",
         "asyncio: atomic steps Enter | Call | Exit per LLM call, arbitrary interleaving; real scheduling fairness, threads not modelled",
